@@ -10,16 +10,38 @@ def defns_tasks():
     return [T(f"Ovld.defns[{g}]", m.t_defns(g)) for g in m.GRAPHS]
 
 
+def defns_history_tasks():
+    return [T(f"Ovld.defns.history[{g},change_at_{at}]", m.t_defns_history(g, at)) for g in ("chain3", "two_parents", "linked_chain3") for at in (0, 1)]
+
+
+def cls_body_tasks():
+    return [T(f"class_body[{sc}]", m.t_cls_body(sc)) for sc in m.CLS_SCENARIOS]
+
+
+def copy_variant_tasks():
+    return [T(f"Ovld.{op}[{g},{'linked' if lb else 'plain'}]", m.t_copy_variant(g, op, lb)) for g in ("single", "child", "linked_child", "two_parents") for op in ("copy", "variant") for lb in (False, True)]
+
+
+def unregister_frame_tasks():
+    return [T(f"Ovld.unregister.frame[{g}]", m.t_unregister_frame(g)) for g in ("single", "child", "linked_child", "chain3")]
+
+
 def guard_tasks():
     return [T(f"Ovld.modify_guard[{op}]", m.t_modify_guard(op)) for op in ("register", "unregister", "add_mixins")]
 
 
 def register_frame_tasks():
-    return [T(f"Ovld._register.frame[{g}]", m.t_register_frame(g)) for g in ("child", "linked_child", "chain3", "two_parents", "siblings")]
+    return [T(f"Ovld._register.frame[{g}]", m.t_register_frame(g)) for g in ("child", "linked_child", "chain3", "two_parents", "siblings")] + [
+        T(f"Ovld._register.frame[{g},inherited_signature]", m.t_register_frame(g, "inherited")) for g in ("chain3", "linked_chain3")
+    ]
 
 
 def compile_tasks():
     return [T(f"Ovld.compile[{g}]", m.t_compile(g)) for g in ("single", "child", "linked_child", "two_parents", "chain3", "siblings")]
+
+
+def compile_parent_tasks():
+    return [T(f"Ovld.compile[{g},first_use_of_the_parent]", m.t_compile(g, which="root")) for g in ("linked_child", "linked_chain3", "siblings")]
 
 
 def lock_tasks():
@@ -40,6 +62,10 @@ def failure_tasks():
         out.append(T(f"Ovld.compile.interrupt[{tag}]", m.t_build_interrupt(fb)))
         for wh in ("adapt", "analyze"):
             out.append(T(f"Ovld.recovery[{tag},{wh}]", m.t_recovery(fb, wh)))
+    for g in ("linked_child", "linked_chain3", "siblings"):
+        out.append(T(f"Ovld._update.failure[{g}]", m.t_update_failure(g)))
+    for callee in ("analyze_arguments", "generate_dispatch"):
+        out.append(T(f"Ovld.compile.loud_failure[rebuild,{callee}#1]", m.t_build_failure(callee, 1, False, clause="loud")))
     return out
 
 
